@@ -398,6 +398,8 @@ def run(tier, seed):
     check_errors(ck, gvh, oracle, tier, st)
     C12lit.check_literals(ck, gvh, oracle, tier, st)
     C12lit.check_renderings(ck, gvh, tier, st)
+    from lib.props import C12stat
+    C12stat.check_statements(ck, gvh, oracle, tier, st)
     if st["go_ne_im"] and not st["go_ne_s"]:
         ck.violation("implementation no longer matches the Coq model Front/Parse.v (Go≈IM/front); no property-level failure found",
                      dict(st["first_im"], kind="Go!=IM", correspondence="Go≈IM/front", differences=st["go_ne_im"],
@@ -417,11 +419,14 @@ def run(tier, seed):
              "unary prefixes) against a reference precedence-climbing parser; Go AST = model AST = generator tree, Go tokens and token lines "
              "= rendered tokens and lines.  (b) literal spellings: see C12lit.  (c) equivalent renderings run on the real runtime. "
              "(d) single-token corruptions: Go error line = line of the token at which the model reports the error. "
+             "(e) random chunks over all statement forms (C12stat): Go ParseChunk AST = Front/Stat.v parse_chunk = generator tree, "
+             "token lines, and error lines for single-token corruptions of chunks. "
              "non-trivial = parsed/evaluated successfully, or an error case of (d); distinct by source text",
         trusted_base=TRUSTED,
         assumptions=["identifiers, strings and numerals in (a) are drawn from small pools (the parser does not look inside literal tokens); "
                      "literal decoding is exercised separately in (b)",
-                     "'function' expressions and statements are compared Go-vs-renderings only (not modelled in Front/Parse.v)"])
+                     "'function' expressions inside expressions are not modelled (Unsupported); function bodies are covered through "
+                     "function statements and local function (Front/Stat.v)"])
 
 
 def known_for_source(ck, src):
